@@ -267,6 +267,15 @@ class Ctx:
         return r
 
     # ------------------------------------------------------------ harness
+    def build_repo_binary(self, pkg, name):
+        """Builds a -tags verif binary of a main package of /repo's working tree into the scratch directory."""
+        out = os.path.join(self.scratch, name)
+        p = subprocess.run(["go", "build", "-tags", "verif", "-o", out, pkg], cwd=REPO, env=goenv(),
+                           stdout=subprocess.PIPE, stderr=subprocess.STDOUT, text=True)
+        if p.returncode != 0:
+            raise Infra("build of %s failed:\n%s" % (pkg, p.stdout[-3000:]))
+        return out
+
     def build_harness(self):
         if self.harness_bin:
             return self.harness_bin
@@ -304,6 +313,8 @@ class Ctx:
                     fails.append(rec)
             if done:
                 break
+            if p.returncode == 4:
+                raise Infra("harness reported a bug of its own (not a verdict): %s" % p.stderr[-3000:])
             # crashed or hung: last @idx marker is the culprit
             cur = None
             for line in p.stderr.splitlines():
@@ -358,7 +369,9 @@ class Ctx:
                 gi, b = parts[k][f["idx"]]
                 f["id"] = gi
                 f["behaviour"] = b
+                f["_ctx"] = (k, f["idx"])
                 fails.append(f)
+        self._parts = parts
         log("replay %s: %d behaviours, %d steps, %d divergent, %.1fs" % (adapter, n, steps, len(fails), time.time() - t))
         if count_traces:
             self.traces += n
@@ -397,7 +410,10 @@ class Ctx:
             conf = self._confirm(adapter, params, rep, per_timeout, sig, prop)
             if not conf:
                 raise Infra("divergence did not reproduce from its replay file (flaky harness?): %s\n%s"
-                            % (k, json.dumps(rep)[:2000]))
+                            % (k, json.dumps({kk: vv for kk, vv in rep.items() if kk not in ("behaviour", "context", "_ctx")})[:2000]))
+            if isinstance(conf, dict):
+                # the same behaviour diverges, but (Go map iteration order) at another observation point: report what reproduced
+                sig = conf
             kf = match_finding(findings, sig)
             if kf:
                 self.known_hits[kf["id"]] = self.known_hits.get(kf["id"], 0) + len(fl)
@@ -418,10 +434,32 @@ class Ctx:
         pth = os.path.join(d, "one-%d.ndjson" % rep["id"])
         with open(pth, "w") as fh:
             fh.write(json.dumps({"id": rep["id"], "steps": rep["behaviour"]}) + "\n")
-        for attempt in range(2):
+        want = json.dumps(sig, sort_keys=True)
+        other = None
+        for attempt in range(3):
             fl, _ = self._run_shard(adapter, pth, 1, params, per_timeout)
-            if any(json.dumps(self._sig(prop, adapter, f), sort_keys=True) == json.dumps(sig, sort_keys=True) for f in fl):
+            if any(json.dumps(self._sig(prop, adapter, f), sort_keys=True) == want for f in fl):
                 return True
+            if fl and other is None:
+                other = self._sig(prop, adapter, fl[0])
+        if other is not None:
+            return other
+        # the real code keeps process-wide state (attribute caches): reproduce with the behaviours that ran before it
+        # in the same process as context; the replay file then carries that context
+        ctx = rep.get("_ctx")
+        if ctx is not None and getattr(self, "_parts", None):
+            k, idx = ctx
+            before = [b for (_, b) in self._parts[k][:idx]]
+            pth = os.path.join(d, "ctx-%d.ndjson" % rep["id"])
+            with open(pth, "w") as fh:
+                for i, b in enumerate(before + [rep["behaviour"]]):
+                    fh.write(json.dumps({"id": i, "steps": b}) + "\n")
+            # Go randomises map iteration (e.g. the order in which a table notifies its clients): allow a few attempts
+            for attempt in range(6):
+                fl, _ = self._run_shard(adapter, pth, len(before) + 1, params, per_timeout)
+                if any(f.get("idx") == len(before) and json.dumps(self._sig(prop, adapter, f), sort_keys=True) == want for f in fl):
+                    rep["context"] = before
+                    return True
         return False
 
     def write_replay(self, adapter, params, rep, sig):
@@ -431,7 +469,8 @@ class Ctx:
         r = dict(rep)
         with open(path, "w") as fh:
             json.dump({"property": self.pid, "adapter": adapter, "params": params, "signature": sig,
-                       "behaviour": rep["behaviour"], "divergence": {k: v for k, v in r.items() if k != "behaviour"}},
+                       "behaviour": rep["behaviour"], "context": rep.get("context", []),
+                       "divergence": {k: v for k, v in r.items() if k not in ("behaviour", "context", "_ctx")}},
                       fh, indent=1)
         return path
 
@@ -491,7 +530,7 @@ class Ctx:
         for dv in self.divergences:
             print("VIOLATION property=%s replay=%s" % (self.pid, dv["replay"]))
             print("  signature=%s count=%d" % (json.dumps(dv["sig"], sort_keys=True), dv["count"]))
-            rep = {k: v for k, v in dv["rep"].items() if k != "behaviour"}
+            rep = {k: v for k, v in dv["rep"].items() if k not in ("behaviour", "context", "_ctx")}
             print("  first=%s" % json.dumps(rep)[:1500])
             rc = 1
         if rc == 0:
